@@ -167,3 +167,309 @@ Proof.
     + reflexivity.
     + symmetry. rewrite Et. apply slice_app; [reflexivity|exact Hob].
 Qed.
+
+(** * position -> offset *)
+
+(** the characters of the current line before its terminator *)
+Fixpoint line_body (t : text) : text :=
+  match t with
+  | [] => []
+  | c :: r => if is_break c r then [] else c :: line_body r
+  end.
+
+Lemma walk16_0 : forall s, walk16 s 0 = 0.
+Proof.
+  destruct s as [|c r]; cbn [walk16]; [reflexivity|].
+  pose proof (u16len_pos c) as Hc.
+  destruct (N.ltb_spec 0 (u16len c)) as [_|L]; [reflexivity|lia].
+Qed.
+
+Lemma walk16_le : forall s col, walk16 s col <= bytes s.
+Proof.
+  induction s as [|c r IH]; intros col; cbn [walk16 bytes]; [lia|].
+  destruct (col <? u16len c); [lia|]. specialize (IH (col - u16len c)). lia.
+Qed.
+
+Lemma walk16_prefix : forall s col, exists a b, s = a ++ b /\ walk16 s col = bytes a.
+Proof.
+  induction s as [|c r IH]; intros col; cbn [walk16].
+  - exists [], []. split; reflexivity.
+  - destruct (col <? u16len c).
+    + exists [], (c :: r). split; reflexivity.
+    + destruct (IH (col - u16len c)) as [a [b [E1 E2]]].
+      exists (c :: a), b. split; [cbn [app]; f_equal; exact E1|].
+      cbn [bytes]. rewrite E2. reflexivity.
+Qed.
+
+Lemma walk16_ascii : forall s col, all_ascii s = true -> walk16 s col = N.min col (bytes s).
+Proof.
+  induction s as [|c r IH]; intros col H; cbn [walk16 bytes]; [lia|].
+  cbn [all_ascii forallb] in H. apply andb_true_iff in H. destruct H as [Hc Hr].
+  fold (all_ascii r) in Hr.
+  rewrite (ascii_blen _ Hc), (ascii_u16len _ Hc).
+  destruct (N.ltb_spec col 1) as [L|L]; [lia|].
+  rewrite (IH _ Hr). lia.
+Qed.
+
+Lemma spec_off_body : forall t col, spec_off t 0 col = Some (walk16 (line_body t) col).
+Proof.
+  induction t as [|c r IH]; intros col; cbn [spec_off line_body].
+  - reflexivity.
+  - change (0 =? 0) with true. cbv iota.
+    change (lsp_break c r) with (is_break c r).
+    destruct (is_break c r); cbn [walk16]; [reflexivity|].
+    destruct (col <? u16len c); [reflexivity|].
+    rewrite IH. reflexivity.
+Qed.
+
+Lemma starts_body : forall t off,
+  match starts t off with
+  | next :: _ => next = off + bytes (line_body t) + 1
+  | [] => line_body t = t
+  end.
+Proof.
+  induction t as [|c r IH]; intros off; cbn [starts line_body]; [reflexivity|].
+  destruct (is_break c r) eqn:B.
+  - cbn [bytes]. rewrite (break_blen _ _ B). lia.
+  - specialize (IH (off + blen c)). destruct (starts r (off + blen c)) as [|next l].
+    + rewrite IH. reflexivity.
+    + cbn [bytes]. lia.
+Qed.
+
+Lemma flags_body : forall t asc,
+  nth 0 (flags t asc) false = true -> all_ascii (line_body t) = true.
+Proof.
+  induction t as [|c r IH]; intros asc H; cbn [flags line_body] in *; [reflexivity|].
+  destruct (is_break c r); [reflexivity|].
+  pose proof (flags_hd _ _ H) as HA. apply andb_true_iff in HA. destruct HA as [_ Hc].
+  cbn [all_ascii forallb]. rewrite Hc. cbn [andb]. exact (IH _ H).
+Qed.
+
+Lemma body_prefix : forall t, exists tail, t = line_body t ++ tail.
+Proof.
+  induction t as [|c r IH]; cbn [line_body].
+  - exists []. reflexivity.
+  - destruct (is_break c r).
+    + exists (c :: r). reflexivity.
+    + destruct IH as [tail E]. exists tail. cbn [app]. f_equal. exact E.
+Qed.
+
+Lemma nth_error_skipn : forall (A : Type) (n m : nat) (l : list A),
+  nth_error l (n + m) = nth_error (skipn n l) m.
+Proof.
+  induction n as [|n IH]; intros m l; [reflexivity|].
+  destruct l as [|x l]; cbn [Nat.add skipn nth_error].
+  - destruct m; reflexivity.
+  - apply IH.
+Qed.
+
+Lemma nth_skipn : forall (A : Type) (n m : nat) (l : list A) (d : A),
+  nth (n + m) l d = nth m (skipn n l) d.
+Proof.
+  induction n as [|n IH]; intros m l d; [reflexivity|].
+  destruct l as [|x l]; cbn [Nat.add skipn nth].
+  - destruct m; reflexivity.
+  - apply IH.
+Qed.
+
+Lemma spec_off_missing : forall t off cur line col,
+  nth_error (cur :: starts t off) (N.to_nat line) = None -> spec_off t line col = None.
+Proof.
+  induction t as [|c r IH]; intros off cur line col H; cbn [starts spec_off] in *.
+  - destruct (N.eqb_spec line 0) as [E|E]; [|reflexivity].
+    subst line. discriminate.
+  - destruct (N.eqb_spec line 0) as [E|E]; [subst line; discriminate|].
+    replace (N.to_nat line) with (S (N.to_nat (line - 1))) in H by lia.
+    change (lsp_break c r) with (is_break c r).
+    destruct (is_break c r).
+    + cbn [nth_error] in H. rewrite (IH _ _ _ col H). reflexivity.
+    + cbn [nth_error] in H.
+      assert (H' : nth_error (cur :: starts r (off + blen c)) (N.to_nat line) = None).
+      { replace (N.to_nat line) with (S (N.to_nat (line - 1))) by lia. exact H. }
+      rewrite (IH _ _ _ col H'). reflexivity.
+Qed.
+
+(** the [S k]-th line start of a suffix [t] (at offset [off] of [p0 ++ t]) *)
+Lemma nth_line : forall t p0 off cur asc k start,
+  off = bytes p0 ->
+  nth_error (cur :: starts t off) (S k) = Some start ->
+  exists p1 t1,
+    p0 ++ t = p1 ++ t1 /\ start = bytes p1 /\ off < start /\
+    skipn (S k) (cur :: starts t off) = start :: starts t1 start /\
+    skipn (S k) (flags t asc) = flags t1 true /\
+    (forall col, spec_off t (N.of_nat (S k)) col =
+                 option_map (N.add (start - off)) (spec_off t1 0 col)).
+Proof.
+  induction t as [|c r IH]; intros p0 off cur asc k start Hoff H.
+  - cbn [starts nth_error] in H. destruct k; discriminate.
+  - pose proof (blen_pos c) as Hc.
+    cbn [starts flags] in *.
+    assert (Hp : off + blen c = bytes (p0 ++ [c])).
+    { rewrite bytes_app. cbn [bytes]. lia. }
+    assert (Happ : forall x, (p0 ++ [c]) ++ x = p0 ++ c :: x).
+    { intros x. rewrite <- app_assoc. reflexivity. }
+    destruct (is_break c r) eqn:B.
+    + cbn [nth_error] in H. destruct k as [|k].
+      * cbn [nth_error] in H. inversion H; subst start. clear H.
+        exists (p0 ++ [c]), r.
+        split; [symmetry; apply Happ|]. split; [exact Hp|]. split; [lia|].
+        split; [reflexivity|]. split; [reflexivity|].
+        intros col. cbn [spec_off].
+        change (N.of_nat 1 =? 0) with false. cbv iota.
+        change (lsp_break c r) with (is_break c r). rewrite B.
+        change (N.of_nat 1 - 1) with 0.
+        replace (off + blen c - off) with (blen c) by lia. reflexivity.
+      * destruct (IH (p0 ++ [c]) (off + blen c) (off + blen c) true k start Hp H)
+          as [p1 [t1 [E1 [E2 [E3 [E4 [E5 E6]]]]]]].
+        exists p1, t1.
+        split; [rewrite <- E1; symmetry; apply Happ|]. split; [exact E2|]. split; [lia|].
+        split; [exact E4|]. split; [exact E5|].
+        intros col. cbn [spec_off].
+        destruct (N.eqb_spec (N.of_nat (S (S k))) 0) as [E|_]; [lia|].
+        change (lsp_break c r) with (is_break c r). rewrite B.
+        replace (N.of_nat (S (S k)) - 1) with (N.of_nat (S k)) by lia.
+        rewrite E6. destruct (spec_off t1 0 col) as [x|]; cbn [option_map]; [|reflexivity].
+        f_equal. lia.
+    + destruct (IH (p0 ++ [c]) (off + blen c) cur (asc && (c <? 128)) k start Hp H)
+        as [p1 [t1 [E1 [E2 [E3 [E4 [E5 E6]]]]]]].
+      exists p1, t1.
+      split; [rewrite <- E1; symmetry; apply Happ|]. split; [exact E2|]. split; [lia|].
+      split; [exact E4|]. split; [exact E5|].
+      intros col. cbn [spec_off].
+      destruct (N.eqb_spec (N.of_nat (S k)) 0) as [E|_]; [lia|].
+      change (lsp_break c r) with (is_break c r). rewrite B.
+      rewrite E6. destruct (spec_off t1 0 col) as [x|]; cbn [option_map]; [|reflexivity].
+      f_equal. lia.
+Qed.
+
+(** the [k]-th line of a whole text *)
+Lemma line_struct : forall t k start,
+  nth_error (0 :: starts t 0) k = Some start ->
+  exists p1 t1,
+    t = p1 ++ t1 /\ start = bytes p1 /\
+    skipn k (0 :: starts t 0) = start :: starts t1 start /\
+    skipn k (flags t true) = flags t1 true /\
+    (forall col, spec_off t (N.of_nat k) col = option_map (N.add start) (spec_off t1 0 col)).
+Proof.
+  intros t k start H. destruct k as [|k].
+  - cbn [nth_error] in H. inversion H; subst start. exists [], t.
+    split; [reflexivity|]. split; [reflexivity|]. split; [reflexivity|].
+    split; [reflexivity|]. intros col. cbn [N.of_nat].
+    destruct (spec_off t 0 col); reflexivity.
+  - destruct (nth_line t [] 0 0 true k start eq_refl H)
+      as [p1 [t1 [E1 [E2 [E3 [E4 [E5 E6]]]]]]].
+    exists p1, t1. split; [exact E1|]. split; [exact E2|]. split; [exact E4|].
+    split; [exact E5|]. intros col. rewrite E6.
+    replace (start - 0) with start by lia. reflexivity.
+Qed.
+
+Lemma line_end_struct : forall t line start p1 t1,
+  t = p1 ++ t1 -> start = bytes p1 ->
+  skipn (N.to_nat line) (0 :: starts t 0) = start :: starts t1 start ->
+  line_end (parse t) t line = start + bytes (line_body t1).
+Proof.
+  intros t line start p1 t1 Et Es Hsk.
+  unfold line_end, get_line_offset. rewrite parse_eq. cbn [line_offsets].
+  replace (N.to_nat (line + 1)) with (N.to_nat line + 1)%nat by lia.
+  rewrite nth_error_skipn, Hsk. cbn [nth_error].
+  pose proof (starts_body t1 start) as HB.
+  destruct (starts t1 start) as [|next l].
+  - rewrite HB. rewrite Et, bytes_app. lia.
+  - lia.
+Qed.
+
+Lemma offset_struct : forall t line start,
+  nth_error (0 :: starts t 0) (N.to_nat line) = Some start ->
+  exists p1 t1,
+    t = p1 ++ t1 /\ start = bytes p1 /\
+    line_end (parse t) t line = start + bytes (line_body t1) /\
+    forall col,
+      get_offset (parse t) t line col = Val (start + walk16 (line_body t1) col) /\
+      spec_off t line col = Some (start + walk16 (line_body t1) col).
+Proof.
+  intros t line start H.
+  destruct (line_struct t (N.to_nat line) start H) as [p1 [t1 [E1 [E2 [E3 [E4 E5]]]]]].
+  rewrite N2Nat.id in E5.
+  pose proof (line_end_struct t line start p1 t1 E1 E2 E3) as Hle.
+  exists p1, t1. split; [exact E1|]. split; [exact E2|]. split; [exact Hle|].
+  intros col. split.
+  - unfold get_offset, get_col_offset_at_line. rewrite Hle.
+    unfold get_line_offset, is_ascii_line. rewrite parse_eq. cbn [line_offsets line_ascii].
+    rewrite H.
+    destruct (N.eqb_spec col 0) as [C|C].
+    + subst col. rewrite walk16_0. reflexivity.
+    + replace (N.to_nat line) with (N.to_nat line + 0)%nat by lia.
+      rewrite nth_skipn, E4.
+      destruct (nth 0 (flags t1 true) false) eqn:F.
+      * rewrite (walk16_ascii _ col (flags_body _ _ F)).
+        replace (start + bytes (line_body t1) - start) with (bytes (line_body t1)) by lia.
+        reflexivity.
+      * destruct (body_prefix t1) as [tail Etail].
+        replace (slice t start (start + bytes (line_body t1))) with (Some (line_body t1)).
+        { reflexivity. }
+        symmetry. rewrite E1. rewrite Etail at 1.
+        apply slice_app; [exact E2|rewrite E2; reflexivity].
+  - rewrite E5, spec_off_body. reflexivity.
+Qed.
+
+Lemma off_is_lsp_off : forall (t : text) (line col : N),
+  get_offset (parse t) t line col =
+  match spec_off t line col with Some o => Val o | None => Nothing end.
+Proof.
+  intros t line col.
+  destruct (nth_error (0 :: starts t 0) (N.to_nat line)) as [start|] eqn:H.
+  - destruct (offset_struct t line start H) as [p1 [t1 [_ [_ [_ HO]]]]].
+    destruct (HO col) as [H1 H2]. rewrite H1, H2. reflexivity.
+  - rewrite (spec_off_missing t 0 0 line col H).
+    unfold get_offset, get_line_offset. rewrite parse_eq. cbn [line_offsets].
+    rewrite H. reflexivity.
+Qed.
+
+Lemma starts_count : forall t off, N.of_nat (length (starts t off)) + 1 = lsp_line_count t.
+Proof.
+  induction t as [|c r IH]; intros off; cbn [starts lsp_line_count]; [reflexivity|].
+  change (lsp_break c r) with (is_break c r).
+  destruct (is_break c r); cbn [length]; rewrite <- (IH (off + blen c)); lia.
+Qed.
+
+Lemma lines_match_lsp : forall (t : text), line_count (parse t) = lsp_line_count t.
+Proof.
+  intros t. unfold line_count. rewrite parse_eq. cbn [line_offsets length].
+  rewrite <- (starts_count t 0). lia.
+Qed.
+
+Lemma spec_pos_nobreak : forall t line col,
+  (forall c, In c t -> c <> 10 /\ c <> 13) ->
+  spec_pos t (bytes t) line col = Some (line, col + u16s t).
+Proof.
+  induction t as [|c r IH]; intros line col H; cbn [spec_pos bytes u16s].
+  - change (0 =? 0) with true. cbv iota. f_equal. f_equal. lia.
+  - pose proof (blen_pos c) as Hc.
+    destruct (N.eqb_spec (blen c + bytes r) 0) as [E|_]; [lia|].
+    destruct (N.ltb_spec (blen c + bytes r) (blen c)) as [L|_]; [lia|].
+    assert (B : lsp_break c r = false).
+    { destruct (H c (or_introl eq_refl)) as [H1 H2]. unfold lsp_break.
+      destruct (N.eqb_spec c 10) as [E|_]; [contradiction|].
+      destruct (N.eqb_spec c 13) as [E|_]; [contradiction|]. reflexivity. }
+    rewrite B. replace (blen c + bytes r - blen c) with (bytes r) by lia.
+    rewrite IH.
+    + f_equal. f_equal. lia.
+    + intros c' Hin. apply H. right. exact Hin.
+Qed.
+
+Lemma col_is_utf16 : forall (t : text),
+  (forall c, In c t -> c <> 10 /\ c <> 13) ->
+  get_line_col (parse t) t (bytes t) = Val (0, u16s t).
+Proof.
+  intros t H.
+  assert (HB : boundaryb t (bytes t) = true).
+  { rewrite <- (app_nil_r t) at 1. apply boundaryb_app. }
+  destruct (pos_is_lsp_pos t (bytes t) HB) as [p [H1 H2]].
+  rewrite (spec_pos_nobreak t 0 0 H) in H1. inversion H1; subst p.
+  rewrite H2. reflexivity.
+Qed.
+
+Lemma utf16_example :
+  get_line_col (parse [97; 128512; 98]) [97; 128512; 98] 5 = Val (0, 3)
+  /\ get_line_col (parse [97; 13; 98]) [97; 13; 98] 2 = Val (1, 0).
+Proof. split; vm_compute; reflexivity. Qed.
